@@ -83,11 +83,30 @@ class VersionConverter(object):
             if elem == 'sections':
                 cls._parse_dict_sections(root, parsed_doc['sections'])
             elif elem:
-                curr_element = ET.Element(elem)
-                curr_element.text = parsed_doc[elem]
-                root.append(curr_element)
+                cls._append_text_element(root, elem, parsed_doc[elem])
 
         return ET.ElementTree(root)
+
+    @staticmethod
+    def _append_text_element(parent_element, tag, content):
+        """
+        Appends an lxml.Element holding the text of a JSON or YAML entry to the provided
+        lxml.Element parent. The decoders return numbers, dates or booleans for unquoted
+        content; an entry without content (JSON null) is left out.
+
+        :param parent_element: lxml.Element to which the new element will be appended.
+        :param tag: name of the new element.
+        :param content: decoded content of the JSON or YAML entry.
+        """
+        if content is None:
+            return
+
+        elem = ET.Element(tag)
+        if isinstance(content, ("".__class__, u"".__class__)):
+            elem.text = content
+        else:
+            elem.text = str(content)
+        parent_element.append(elem)
 
     @classmethod
     def _parse_dict_sections(cls, parent_element, section_list):
@@ -100,7 +119,8 @@ class VersionConverter(object):
         :param section_list: list of python dictionaries containing valid v1.0 odML
                              Sections.
         """
-        for section in section_list:
+        # An entry without content, e.g. a YAML 'sections:' without items, holds no Sections.
+        for section in section_list or []:
             sec = ET.Element("section")
             for element in section:
                 if element == 'properties':
@@ -108,9 +128,7 @@ class VersionConverter(object):
                 elif element == 'sections':
                     cls._parse_dict_sections(sec, section['sections'])
                 elif element:
-                    elem = ET.Element(element)
-                    elem.text = section[element]
-                    sec.append(elem)
+                    cls._append_text_element(sec, element, section[element])
 
             parent_element.append(sec)
 
@@ -125,20 +143,18 @@ class VersionConverter(object):
         :param props_list: list of python dictionaries containing valid v1.0 odML
                            Properties.
         """
-        for curr_prop in props_list:
+        for curr_prop in props_list or []:
             prop = ET.Element("property")
             for element in curr_prop:
                 if element == 'values':
                     cls._parse_dict_values(prop, curr_prop['values'])
                 elif element:
-                    elem = ET.Element(element)
-                    elem.text = curr_prop[element]
-                    prop.append(elem)
+                    cls._append_text_element(prop, element, curr_prop[element])
 
             parent_element.append(prop)
 
-    @staticmethod
-    def _parse_dict_values(parent_element, value_list):
+    @classmethod
+    def _parse_dict_values(cls, parent_element, value_list):
         """
         _parse_dict_values parses a list containing python dictionaries of v1.0 odML
         style values into lxml.Element XML equivalents and appends the parsed
@@ -147,16 +163,14 @@ class VersionConverter(object):
         :param parent_element: lxml.Element to which parsed values will be appended.
         :param value_list: list of python dictionaries containing valid v1.0 odML Values.
         """
-        for value in value_list:
+        for value in value_list or []:
             val = ET.Element("value")
             for element in value:
                 if element:
                     if element == 'value':
                         val.text = str(value[element])
                     else:
-                        elem = ET.Element(element)
-                        elem.text = str(value[element])
-                        val.append(elem)
+                        cls._append_text_element(val, element, value[element])
 
             parent_element.append(val)
 
